@@ -135,7 +135,7 @@ async def _tunnel(flavor, seg):
 def run_case(case):
     flavor, kind, n_after, status = case["flavor"], case["kind"], case["after"], case["status"]
     r = random.Random(case["seed"])
-    after = bytes((i * 7 + 3) % 251 for i in range(n_after))
+    after = payload(case.get("payload", "arith"), n_after)
     viol = []
     cnt = {"handovers": 0, "oracle_bytes": 0, "oracle_live": 0, "oracle_not_reused": 0, "cuts": 0, "bytes_compared": 0,
            "tunnel_runs": 0, "write_fault_handovers": 0}
@@ -219,7 +219,7 @@ def run_case(case):
                     pos = "head" if c < head_len else ("boundary" if c == head_len else "data")
                 else:
                     pos = "-"
-                sigs.add(f"{kind}|{status}|after{n_after}|{name}|{pos}|mb{sizes}|rbf{int(rbf)}")
+                sigs.add(f"{kind}|{status}|after{n_after}|{case.get('payload', 'arith')}|{name}|{pos}|mb{sizes}|rbf{int(rbf)}")
                 ctx = {"kind": kind, "status": status, "after_len": n_after, "seg": seg.describe(), "max_bytes": sizes,
                        "flavor": flavor, "reads": info.get("reads"), "body_read_before_takeover": rbf}
                 if out.kind != "ok":
@@ -255,6 +255,18 @@ def run_case(case):
     return {"viol": viol, "counters": cnt, "sigs": sorted(sigs), "sample": sample or None}
 
 
+PAYLOADS = ["arith", "crlf", "lf", "http-head", "nul", "blank"]
+
+
+def payload(kind: str, n: int) -> bytes:
+    """What the peer says after the head is opaque to HTTP: bytes that look like line ends, like another response head,
+    like nothing at all."""
+    base = bytes((i * 7 + 3) % 251 for i in range(n))
+    pre = {"arith": b"", "crlf": b"\r\n\r\n", "lf": b"\n", "http-head": b"HTTP/1.1 200 OK\r\nContent-Length: 0\r\n\r\n",
+           "nul": b"\x00\x00", "blank": b" \t\r\n "}[kind]
+    return (pre + base)[:n]
+
+
 def plan(tier, seed):
     r = random.Random(seed * 31 + 17)
     cases = []
@@ -267,6 +279,11 @@ def plan(tier, seed):
                 fl = flavors if tier != "quick" else [flavors[i % 3]]
                 for f in fl:
                     cases.append({"flavor": f, "kind": kind, "after": a, "status": st, "seed": r.randrange(1 << 30)})
+                    if a and tier != "quick":
+                        for pk in PAYLOADS[1:]:
+                            cases.append(dict(cases[-1], payload=pk, seed=r.randrange(1 << 30)))
+                    elif a:
+                        cases.append(dict(cases[-1], payload=PAYLOADS[1 + (i + seed) % (len(PAYLOADS) - 1)], seed=r.randrange(1 << 30)))
                 i += 1
     for f in flavors:
         cases.append({"flavor": f, "kind": "tunnel", "after": 0, "status": 200, "seed": r.randrange(1 << 30)})
